@@ -262,3 +262,28 @@ func VerifC18FaultShadow()    { verifC18(false, 1) }
 func VerifC18MalformedNative() { verifC18(true, 2) }
 func VerifC18CancelShadow()   { verifC18(false, 3) }
 func VerifC18CancelNative()   { verifC18(true, 3) }
+
+// VerifC18V1Meaning: a format-version-1 entry with an empty value has the documented meaning
+// of a deletion in every merge decision: merging it gives byte for byte the result of merging
+// the equivalent current-format entry that carries the deleted flag - from any stored value,
+// for any timestamps and any stale-deletion cutoff.
+func VerifC18V1Meaning() {
+	ts := zz.NondetU64("in.ts")
+	cutoff := zz.NondetU64("cutoff")
+	v1 := vIncoming{ts: ts, flags: zz.NondetU32("in.flags") &^ 1}
+	v3 := vIncoming{ts: ts, flags: v1.flags | 1}
+	var s []byte
+	if zz.Choice("stored", 2) == 1 {
+		s = vNondetStored("s", 1, 1)
+	}
+	r1 := vMerge(s, v1, 1, cutoff, 0, false)
+	r3 := vMerge(s, v3, 3, cutoff, 0, false)
+	zz.Assert((r1 == nil) == (r3 == nil), "C18/v1-empty-value/same-presence-as-deleted-flag")
+	if r1 != nil && r3 != nil {
+		zz.Assert(bytes.Equal(r1, r3), "C18/v1-empty-value/same-result-as-deleted-flag")
+		_, del, _ := vLogical(r1)
+		_, sdel, _ := vLogical(r3)
+		zz.Assert(del == sdel, "C18/v1-empty-value/same-liveness")
+	}
+	zz.Reach("C18/v1/done")
+}
